@@ -1167,6 +1167,17 @@ func fmtHolders(h vw.Holders) string {
 // writeDiscipline: C03's last sentence. Two forced re-syncs at quiescence: the first may normalise
 // (at most one write per service), the second must not write at all.
 func (s *sim) writeDiscipline() bool {
+	// the clause speaks of converged services: one that holds addresses its own spec does not admit (a dual-stack
+	// service that could only be given one family, an address request that does not fit the families) is kept in a
+	// degraded state which the controller keeps trying to repair, and may change on any re-sync
+	skip := map[string]bool{}
+	sh := s.statusHolders()
+	for k := range s.specs {
+		if as := s.status(k); len(as) > 0 && !s.admissible(k, as, sh) {
+			skip[k] = true
+			s.tr.Class("holds-addresses-its-spec-does-not-admit")
+		}
+	}
 	for round := 1; round <= 2; round++ {
 		before := map[string]int{}
 		for k, n := range s.writes {
@@ -1178,6 +1189,9 @@ func (s *sim) writeDiscipline() bool {
 		}
 		for k := range s.specs {
 			d := s.writes[k] - before[k]
+			if skip[k] {
+				continue
+			}
 			if (round == 1 && d > 1) || (round == 2 && d > 0) {
 				sp := s.specs[k]
 				s.setViol(vw.Violationf("resync-writes-status", "re-sync #%d of the converged service %s performed %d status write(s); status now %v", round, k, d, s.status(k)).
